@@ -17,6 +17,8 @@ Proof. intros A f k v x H. unfold upd. destruct (Nat.eqb_spec x k) as [E|E]; [co
 
 Definition memb (w : nat) (l : list nat) : bool := existsb (Nat.eqb w) l.
 
+Arguments memb : simpl never.
+
 Lemma memb_In : forall w l, memb w l = true <-> In w l.
 Proof.
   intros w l. unfold memb. rewrite existsb_exists. split.
@@ -391,7 +393,7 @@ Proof.
   intros c s w s' I Hp Hsee. unfold see in Hsee.
   destruct (outst s w) eqn:Ho; [|discriminate].
   destruct (pend_match s w) as [l|] eqn:Hm; [|discriminate].
-  inversion Hsee as [Hs']; clear Hsee.
+  injection Hsee as Hs'.
   destruct (pend_match_shape s w l (inv_links c s I w Hp) Ho Hm) as (El & Hc & Hs & Hmem & Hf & He & Hpo).
   subst l.
   assert (Act : forall x, active s' x = active s x).
@@ -450,7 +452,7 @@ Proof.
   induction l as [|x l IH]; intros s w; simpl; [rewrite orb_false_r; reflexivity|].
   unfold finish_all in *; simpl. rewrite IH. simpl. unfold memb; simpl.
   destruct (Nat.eqb_spec w x) as [E|E].
-  - subst. upds. reflexivity.
+  - subst. upds. destruct (wfin s x); reflexivity.
   - upds. reflexivity.
 Qed.
 
@@ -493,7 +495,7 @@ Proof.
     + apply filter_all. intros w Hw. rewrite Hf by exact Hw. reflexivity.
     + intros w Hw.
       assert (Hin : In w (wstack s)).
-      { apply (NoDup_length_incl (inv_ws_nodup c s I)); [exact Hle| |exact Hw].
+      { apply (@NoDup_length_incl _ (wstack s) (pool c) (inv_ws_nodup c s I) Hle); [|exact Hw].
         intros x Hx. apply (inv_ws_pool c s I). exact Hx. }
       destruct (stack_worker_idle c s w I Hin (Hf w Hw)) as (Ho & Hc & Hs & He).
       apply memb_In in Hin. repeat split; auto.
@@ -526,4 +528,460 @@ Proof.
   - intros w Hw. rewrite Hch. apply memb_false in Hw. rewrite Hw. apply (inv_outside c s I). apply memb_false. exact Hw.
   - intros _ w Hw. rewrite Hwf. apply memb_In in Hw. rewrite Hw. apply orb_true_r.
   - rewrite H10. apply (inv_err c s I).
+Qed.
+
+(** * Preservation: worker actions *)
+
+Lemma msg_eqb_eq : forall a b, msg_eqb a b = true -> a = b.
+Proof.
+  intros a b H. destruct a, b; simpl in H; try discriminate; try reflexivity.
+  apply Nat.eqb_eq in H. subst. reflexivity.
+Qed.
+
+Lemma inv_recv : forall c s w m l, Inv c s -> In w (pool c) -> wst s w = Pending ->
+  wild_match s w = Some (m, l) -> Inv c (do_recv w m l s).
+Proof.
+  intros c s w m l I Hp Hs Hm.
+  destruct (wild_match_shape s w m l (inv_links c s I w Hp) Hs Hm) as (El & He & Hcase). subst l.
+  assert (Act : forall x, active (do_recv w m [] s) x = active s x).
+  { intros x. unfold active; simpl. destruct (Nat.eq_dec x w) as [E|E].
+    - subst x. upds. rewrite Hs.
+      destruct Hcase as [(j & Ej & Hc & _)|(Ej & Hc & _)]; subst m; rewrite Hc; reflexivity.
+    - upds. reflexivity. }
+  constructor; simpl.
+  - intros x Hx. destruct (Nat.eq_dec x w) as [E|E].
+    + subst x. unfold link_ok; simpl. upds. rewrite He.
+      destruct Hcase as [(j & Ej & Hc & Hmem & Ho & Hf)|(Ej & Hc & Hmem & Ho & Hf)]; subst m;
+        rewrite Hmem, Ho, Hf; simpl; constructor.
+    + apply (link_frame s); simpl; upds; try reflexivity. apply (inv_links c s I). exact Hx.
+  - apply (inv_ws_nodup c s I).
+  - apply (inv_ws_pool c s I).
+  - apply (inv_jobs_nodup c s I).
+  - intros j. rewrite (in_flight_same c s _ j (fun x _ => Act x)). apply (inv_cons c s I).
+  - intros x j Hx Hj. rewrite Act in Hj. apply (inv_dmap_active c s I); assumption.
+  - apply (inv_dmap_log c s I).
+  - apply (inv_dmap_dom c s I).
+  - apply (inv_fin c s I).
+  - intros x Hx. assert (x <> w) by (intros E; subst; contradiction). upds. apply (inv_outside c s I). exact Hx.
+  - apply (inv_exit_root c s I).
+  - apply (inv_err c s I).
+Qed.
+
+Lemma work_shape : forall s w j, link_ok s w -> wst s w = Work j ->
+  memb w (wstack s) = false /\ outst s w = true /\ wfin s w = false /\ chan s w = [] /\
+  pend_older s w = true /\ exited s w = false.
+Proof.
+  intros s w j L Hs. shapes s w L; try congruence. repeat split; congruence.
+Qed.
+
+Lemma inv_run : forall c s w j, Inv c s -> In w (pool c) -> wst s w = Work j -> Inv c (do_run w j s).
+Proof.
+  intros c s w j I Hp Hs.
+  destruct (work_shape s w j (inv_links c s I w Hp) Hs) as (Hmem & Ho & Hf & Hc & Hpo & He).
+  assert (Act0 : active (do_run w j s) w = []).
+  { unfold active; simpl. upds. rewrite Hc. reflexivity. }
+  assert (Act0s : active s w = [j]).
+  { unfold active. rewrite Hs, Hc. reflexivity. }
+  assert (Act : forall x, x <> w -> active (do_run w j s) x = active s x).
+  { intros x Hx. apply active_frame; simpl; upds; reflexivity. }
+  constructor; simpl.
+  - intros x Hx. destruct (Nat.eq_dec x w) as [E|E].
+    + subst x. unfold link_ok; simpl. upds. rewrite Hmem, Ho, Hf, Hc, Hpo, He. simpl. constructor.
+    + apply (link_frame s); simpl; upds; try reflexivity. apply (inv_links c s I). exact Hx.
+  - apply (inv_ws_nodup c s I).
+  - apply (inv_ws_pool c s I).
+  - apply (inv_jobs_nodup c s I).
+  - intros j'. pose proof (inv_cons c s I j') as C.
+    pose proof (in_flight_change c s (do_run w j s) w j' Hp (fun x _ Hx => Act x Hx)) as F.
+    rewrite Act0, Act0s in F. simpl in F.
+    unfold on_stack, executed in *. simpl. lia.
+  - intros x j' Hx Hj. destruct (Nat.eq_dec x w) as [E|E].
+    + subst x. rewrite Act0 in Hj. destruct Hj.
+    + rewrite Act in Hj by exact E. apply (inv_dmap_active c s I); assumption.
+  - intros j' w' [E|Hi].
+    + inversion E; subst. split; [|exact Hp]. apply (inv_dmap_active c s I); [exact Hp|].
+      rewrite Act0s. left. reflexivity.
+    + apply (inv_dmap_log c s I). exact Hi.
+  - apply (inv_dmap_dom c s I).
+  - apply (inv_fin c s I).
+  - intros x Hx. assert (x <> w) by (intros E; subst; contradiction). upds. apply (inv_outside c s I). exact Hx.
+  - apply (inv_exit_root c s I).
+  - apply (inv_err c s I).
+Qed.
+
+Lemma finish_shape : forall s w, link_ok s w -> wst s w = Finish ->
+  memb w (wstack s) = true /\ outst s w = false /\ wfin s w = true /\ chan s w = [].
+Proof.
+  intros s w L Hs. shapes s w L; try congruence. repeat split; congruence.
+Qed.
+
+Lemma exited_shape : forall s w, link_ok s w -> exited s w = true -> wst s w = Finish.
+Proof. intros s w L He. shapes s w L; congruence. Qed.
+
+Lemma all_fin_of_one : forall c s w, Inv c s -> In w (pool c) -> wfin s w = true ->
+  (forall x, In x (pool c) -> wfin s x = true) /\ jobstack s = [].
+Proof.
+  intros c s w I Hp Hf. destruct (inv_fin c s I) as [H|H]; [|exact H].
+  rewrite (H w Hp) in Hf. discriminate.
+Qed.
+
+Lemma inv_exit : forall c s r, Inv c s -> r < np c -> loop_done c s r = true -> Inv c (do_exit r s).
+Proof.
+  intros c s r I Hr Hd.
+  assert (Act : forall x, active (do_exit r s) x = active s x) by (intros x; reflexivity).
+  constructor; simpl.
+  - intros x Hx. destruct (Nat.eq_dec x r) as [E|E].
+    + subst x. unfold loop_done in Hd. apply in_pool in Hx. rewrite Hx in Hd. apply in_pool in Hx.
+      destruct (wst s r) eqn:Hs; try discriminate.
+      destruct (finish_shape s r (inv_links c s I r Hx) Hs) as (Hmem & Ho & Hf & Hc).
+      unfold link_ok; simpl. upds. rewrite Hmem, Ho, Hf, Hc, Hs. constructor.
+    + apply (link_frame s); simpl; upds; try reflexivity. apply (inv_links c s I). exact Hx.
+  - apply (inv_ws_nodup c s I).
+  - apply (inv_ws_pool c s I).
+  - apply (inv_jobs_nodup c s I).
+  - intros j. apply (inv_cons c s I).
+  - apply (inv_dmap_active c s I).
+  - apply (inv_dmap_log c s I).
+  - apply (inv_dmap_dom c s I).
+  - apply (inv_fin c s I).
+  - apply (inv_outside c s I).
+  - destruct (Nat.eq_dec r 0) as [E|E].
+    + subst r. intros _. unfold loop_done in Hd. destruct (is_worker c 0) eqn:Hw.
+      * apply in_pool in Hw. destruct (wst s 0) eqn:Hs; try discriminate.
+        destruct (finish_shape s 0 (inv_links c s I 0 Hw) Hs) as (_ & _ & Hf & _).
+        apply (all_fin_of_one c s 0 I Hw Hf).
+      * intros w Hwp. rewrite forallb_forall in Hd. apply Hd. exact Hwp.
+    + rewrite upd_other by congruence. apply (inv_exit_root c s I).
+  - apply (inv_err c s I).
+Qed.
+
+(** * Rounds *)
+
+Definition final (c : cfg) (s : sys) : Prop := forall r, r < np c -> exited s r = true.
+
+Lemma finalb_final : forall c s, finalb c s = true <-> final c s.
+Proof.
+  intros c s. unfold finalb, final. rewrite forallb_forall. split; intros H r Hr; apply H; apply in_ranks; exact Hr.
+Qed.
+
+Lemma final_links : forall c s w, Inv c s -> final c s -> In w (pool c) ->
+  wst s w = Finish /\ memb w (wstack s) = true /\ outst s w = false /\ wfin s w = true /\ chan s w = [].
+Proof.
+  intros c s w I F Hp. pose proof (inv_links c s I w Hp) as L.
+  pose proof (exited_shape s w L (F w (pool_lt c w Hp))) as Hs.
+  split; [exact Hs|]. apply finish_shape; assumption.
+Qed.
+
+Lemma final_chan_empty : forall c s w, Inv c s -> final c s -> chan s w = [].
+Proof.
+  intros c s w I F. destruct (in_dec Nat.eq_dec w (pool c)) as [Hp|Hn].
+  - apply (final_links c s w I F Hp).
+  - apply (inv_outside c s I). exact Hn.
+Qed.
+
+Lemma final_no_outst : forall c s, Inv c s -> final c s -> existsb (outst s) (pool c) = false.
+Proof.
+  intros c s I F. destruct (existsb (outst s) (pool c)) eqn:E; [|reflexivity].
+  apply existsb_exists in E. destruct E as [w [Hw Ho]].
+  destruct (final_links c s w I F Hw) as (_ & _ & Ho' & _). congruence.
+Qed.
+
+(** [rounds]: the state in which the next round starts on the same communicator (whatever is still in the
+    MPI layer is carried over) is a valid initial state. *)
+Lemma restart_is_init : forall c s js, Inv c s -> final c s -> is_init c js (restart c s js).
+Proof.
+  intros c s js I F. unfold is_init, restart, fresh; simpl.
+  repeat split; try reflexivity.
+  - intros w. apply (final_chan_empty c s w I F).
+  - rewrite (inv_err c s I), (final_no_outst c s I F). reflexivity.
+Qed.
+
+Lemma nodupb_NoDup : forall l, nodupb l = true -> NoDup l.
+Proof.
+  induction l as [|x l IH]; simpl; intros H; constructor.
+  - apply andb_true_iff in H. destruct H as [H _]. apply negb_true_iff in H.
+    intros Hi. assert (existsb (Nat.eqb x) l = true); [|congruence].
+    apply existsb_exists. exists x. split; [exact Hi|apply Nat.eqb_refl].
+  - apply IH. apply andb_true_iff in H. apply H.
+Qed.
+
+Lemma NoDup_nodupb : forall l, NoDup l -> nodupb l = true.
+Proof.
+  intros l H. induction H as [|x l Hx Hl IH]; simpl; [reflexivity|].
+  rewrite IH, andb_true_r. apply negb_true_iff. destruct (existsb (Nat.eqb x) l) eqn:E; [|reflexivity].
+  apply existsb_exists in E. destruct E as [y [Hy He]]. apply Nat.eqb_eq in He. subst. contradiction.
+Qed.
+
+(** * The invariant is inductive *)
+
+Lemma list_eqb_eq : forall a b, list_eqb a b = true -> a = b.
+Proof.
+  induction a as [|x a IH]; destruct b as [|y b]; simpl; intros H; try discriminate; [reflexivity|].
+  apply andb_true_iff in H. destruct H as [H1 H2]. apply Nat.eqb_eq in H1. rewrite (IH b H2). subst. reflexivity.
+Qed.
+
+Lemma list_eqb_refl : forall a, list_eqb a a = true.
+Proof. induction a as [|x a IH]; simpl; [reflexivity|]. rewrite Nat.eqb_refl, IH. reflexivity. Qed.
+
+Lemma pairs_eqb_refl : forall a, pairs_eqb a a = true.
+Proof. induction a as [|[x y] a IH]; simpl; [reflexivity|]. rewrite !Nat.eqb_refl, IH. reflexivity. Qed.
+
+Theorem inv_step : forall c s e s', Inv c s -> step c s e = Some s' -> Inv c s'.
+Proof.
+  intros c s e s' I H. destruct e as [l|seen fins|w m|w j|r|r|js]; simpl in H.
+  - destruct (exited s 0); [discriminate|]. destruct l as [|p l]; [discriminate|].
+    destruct (pairs_eqb (p :: l) (order_pairs s)); [|discriminate].
+    inversion H; subst. apply inv_order. exact I.
+  - destruct (exited s 0); [discriminate|].
+    destruct (match seen, fins with [], [] => true | _, _ => false end); [discriminate|].
+    destruct (check_loop (pool c) seen s) as [s1|] eqn:Hc; [|discriminate].
+    destruct (list_eqb fins (finish_targets c s1)) eqn:Hf; [|discriminate].
+    inversion H; subst. apply list_eqb_eq in Hf. subst fins. apply inv_finish.
+    apply (inv_check_loop c (pool c) seen s s1); auto.
+  - destruct (is_worker c w && negb (exited s w)) eqn:Hw; [|discriminate].
+    apply andb_true_iff in Hw. destruct Hw as [Hw _]. apply in_pool in Hw.
+    destruct (wst s w) eqn:Hs; try discriminate.
+    destruct (wild_match s w) as [[m' l]|] eqn:Hm; [|discriminate].
+    destruct (msg_eqb m m') eqn:Hmm; [|discriminate].
+    apply msg_eqb_eq in Hmm. subst m'. inversion H; subst. apply inv_recv; assumption.
+  - destruct (is_worker c w && negb (exited s w)) eqn:Hw; [|discriminate].
+    apply andb_true_iff in Hw. destruct Hw as [Hw _]. apply in_pool in Hw.
+    destruct (wst s w) as [|j'|] eqn:Hs; try discriminate.
+    destruct (Nat.eqb_spec j j') as [E|E]; [|discriminate]. subst j'.
+    inversion H; subst. apply inv_run; assumption.
+  - destruct ((r <? np c) && negb (exited s r) && loop_done c s r) eqn:Hc; [|discriminate].
+    apply andb_true_iff in Hc. destruct Hc as [Hc Hd]. apply andb_true_iff in Hc. destruct Hc as [Hr _].
+    apply Nat.ltb_lt in Hr. inversion H; subst. apply inv_exit; assumption.
+  - destruct ((r <? np c) && negb (exited s r)); [|discriminate]. inversion H; subst. exact I.
+  - destruct (forallb (exited s) (ranks c) && nodupb js) eqn:Hc; [|discriminate].
+    apply andb_true_iff in Hc. destruct Hc as [Hf Hn]. inversion H; subst.
+    apply (inv_of_init c js); [apply nodupb_NoDup; exact Hn|].
+    apply restart_is_init; [exact I|apply finalb_final; exact Hf].
+Qed.
+
+Lemma inv_run_trace : forall c t s s', Inv c s -> run c s t = Some s' -> Inv c s'.
+Proof.
+  intros c t. induction t as [|e t IH]; intros s s' I H; simpl in H.
+  - inversion H; subst. exact I.
+  - destruct (step c s e) as [s1|] eqn:Hs; [|discriminate].
+    apply (IH s1 s'); [apply (inv_step c s e s1); assumption|exact H].
+Qed.
+
+(** reachable: from the initial state of a first round with any duplicate-free job order, by any sequence
+    of events (any interleaving, any number of rounds) *)
+Definition reachable (c : cfg) (s : sys) : Prop :=
+  exists js t, NoDup js /\ run c (init c js) t = Some s.
+
+Theorem inv_reachable : forall c s, reachable c s -> Inv c s.
+Proof.
+  intros c s (js & t & Hn & Hr). apply (inv_run_trace c t (init c js) s); [|exact Hr].
+  apply (inv_of_init c js); [exact Hn|apply init_is_init].
+Qed.
+
+(** * Invariants in the form the property states them *)
+
+Definition b2n (b : bool) : nat := if b then 1 else 0.
+
+(** job_conservation: each job of the round is in exactly one of three places -- on the JobStack,
+    in flight to / running on exactly one worker, executed exactly once -- and nothing else is anywhere. *)
+Theorem job_conservation : forall c s, reachable c s -> forall j,
+  (In j (alljobs s) -> on_stack j s + in_flight c j s + executed j s = 1) /\
+  (~ In j (alljobs s) -> on_stack j s = 0 /\ in_flight c j s = 0 /\ executed j s = 0).
+Proof.
+  intros c s R j. pose proof (inv_reachable c s R) as I. pose proof (inv_cons c s I j) as C. split; intros H.
+  - rewrite C. apply cnt_NoDup_In; [apply (inv_jobs_nodup c s I)|exact H].
+  - apply cnt_zero_notIn in H. lia.
+Qed.
+
+(** worker_conservation: every worker of the pool is either on the WorkerStack exactly once (and then no
+    completion receive is outstanding for it) or has exactly one outstanding order (and is not on the
+    stack); the stack holds only pool members; and the link is in one of the six protocol shapes. *)
+Theorem worker_conservation : forall c s, reachable c s ->
+  (forall w, In w (pool c) -> cnt w (wstack s) + b2n (outst s w) = 1 /\ link_ok s w) /\
+  (forall w, In w (wstack s) -> In w (pool c)).
+Proof.
+  intros c s R. pose proof (inv_reachable c s R) as I. split; [|apply (inv_ws_pool c s I)].
+  intros w Hw. pose proof (inv_links c s I w Hw) as L. split; [|exact L].
+  pose proof (cnt_NoDup w (wstack s) (inv_ws_nodup c s I)) as Hle.
+  shapes s w L; rewrite ?Eo; simpl.
+  all: try (apply memb_In in Em; apply cnt_pos_In in Em; lia).
+  all: apply memb_false in Em; apply cnt_zero_notIn in Em; lia.
+Qed.
+
+Lemma fin_no_active : forall c s w, Inv c s -> In w (pool c) -> wfin s w = true -> active s w = [].
+Proof.
+  intros c s w I Hp Hf. pose proof (inv_links c s I w Hp) as L. unfold active.
+  shapes s w L; try congruence; rewrite Es, Ec; reflexivity.
+Qed.
+
+(** finish_only_when_done: once Finish has been sent to any worker it has been sent to all of them, the
+    JobStack is empty, nothing is in flight or running, every job has been executed. *)
+Theorem finish_only_when_done : forall c s, reachable c s -> forall w, In w (pool c) -> wfin s w = true ->
+  (forall x, In x (pool c) -> wfin s x = true) /\ jobstack s = [] /\
+  forall j, in_flight c j s = 0 /\ executed j s = cnt j (alljobs s).
+Proof.
+  intros c s R w Hp Hf. pose proof (inv_reachable c s R) as I.
+  destruct (all_fin_of_one c s w I Hp Hf) as [Hall Hj]. split; [exact Hall|split; [exact Hj|]].
+  intros j. assert (F : in_flight c j s = 0).
+  { unfold in_flight. apply sumf_zero. intros x Hx. rewrite (fin_no_active c s x I Hx (Hall x Hx)). reflexivity. }
+  split; [exact F|]. pose proof (inv_cons c s I j) as C. unfold on_stack in C. rewrite Hj in C. simpl in C. lia.
+Qed.
+
+(** root_matching: the worker's wildcard receive never completes with a completion report (on rank 0 with
+    include_boss both receives are posted for source 0; the master's is always the older one when a report
+    is in the channel). *)
+Theorem root_matching : forall c s, reachable c s -> forall w, step c s (ERecv w MPend) = None.
+Proof.
+  intros c s R w. pose proof (inv_reachable c s R) as I. simpl.
+  destruct (is_worker c w && negb (exited s w)) eqn:Hw; [|reflexivity].
+  apply andb_true_iff in Hw. destruct Hw as [Hw _]. apply in_pool in Hw.
+  destruct (wst s w) eqn:Hs; try reflexivity.
+  destruct (wild_match s w) as [[m' l]|] eqn:Hm; [|reflexivity].
+  destruct (wild_match_shape s w m' l (inv_links c s I w Hw) Hs Hm) as (_ & _ & [(j & E & _)|(E & _)]);
+    subst m'; reflexivity.
+Qed.
+
+(** the model never leaves the envelope in which its MPI state is exact *)
+Theorem no_err : forall c s, reachable c s -> err s = false.
+Proof. intros c s R. apply (inv_err c s (inv_reachable c s R)). Qed.
+
+(** * No deadlock *)
+
+Definition idleP (s : sys) (w : wid) : Prop :=
+  memb w (wstack s) = true /\ wfin s w = false /\ exited s w = false.
+
+Definition moves (c : cfg) (s : sys) : Prop :=
+  exists e s', stutter e = false /\ is_newround e = false /\ step c s e = Some s'.
+
+Lemma check_loop_nil : forall ws s, check_loop ws [] s = Some s.
+Proof. intros ws s. destruct ws; reflexivity. Qed.
+
+Lemma check_loop_single : forall ws w s s1, In w ws -> see w s = Some s1 -> check_loop ws [w] s = Some s1.
+Proof.
+  induction ws as [|x ws IH]; intros w s s1 Hi Hs; [destruct Hi|]. simpl.
+  destruct (Nat.eqb_spec x w) as [E|E].
+  - subst x. rewrite Hs. apply check_loop_nil.
+  - destruct Hi as [Hi|Hi]; [contradiction|]. apply IH; assumption.
+Qed.
+
+Lemma root_running : forall c s w, Inv c s -> In w (pool c) -> wfin s w = false -> exited s 0 = false.
+Proof.
+  intros c s w I Hp Hf. destruct (exited s 0) eqn:E; [|reflexivity].
+  rewrite (inv_exit_root c s I E w Hp) in Hf. discriminate.
+Qed.
+
+Lemma worker_move : forall c s w, Inv c s -> In w (pool c) ->
+  idleP s w \/ exited s w = true \/ moves c s.
+Proof.
+  intros c s w I Hp. pose proof (inv_links c s I w Hp) as L.
+  assert (Hiw : is_worker c w = true) by (apply in_pool; exact Hp).
+  shapes s w L.
+  - left. unfold idleP. auto.
+  - (* LSent: the worker can receive the order *)
+    right; right. exists (ERecv w (MWork j)), (do_recv w (MWork j) [] s). repeat split. simpl.
+    rewrite Hiw, Ee, Es. simpl.
+    assert (M : wild_match s w = Some (MWork j, [])).
+    { unfold wild_match. rewrite Ec, Eo, Ep. destruct (shared w); reflexivity. }
+    rewrite M. simpl. rewrite Nat.eqb_refl. reflexivity.
+  - (* LWork: the worker can run the job *)
+    right; right. exists (ERun w j), (do_run w j s). repeat split. simpl.
+    rewrite Hiw, Ee, Es. simpl. rewrite Nat.eqb_refl. reflexivity.
+  - (* LDone: the master can see the completion *)
+    right; right.
+    assert (M : pend_match s w = Some []).
+    { unfold pend_match. rewrite Ec, Ep. destruct (shared w); reflexivity. }
+    assert (S : exists s1, see w s = Some s1).
+    { unfold see. rewrite Eo, M. eexists. reflexivity. }
+    destruct S as [s1 Hs1].
+    exists (ECheck [w] (finish_targets c s1)), (finish_all (finish_targets c s1) s1). repeat split. simpl.
+    rewrite (root_running c s w I Hp Ef).
+    rewrite (check_loop_single (pool c) w s s1 Hp Hs1). rewrite list_eqb_refl. reflexivity.
+  - (* LFinSent: the worker can receive Finish *)
+    right; right. exists (ERecv w MFinish), (do_recv w MFinish [] s). repeat split. simpl.
+    rewrite Hiw, Ee, Es. simpl.
+    assert (M : wild_match s w = Some (MFinish, [])).
+    { unfold wild_match. rewrite Ec, Eo. destruct (shared w); reflexivity. }
+    rewrite M. reflexivity.
+  - (* LFinished *)
+    destruct ex.
+    + right; left. exact Ee.
+    + right; right. exists (EExit w), (do_exit w s). repeat split. simpl.
+      pose proof (pool_lt c w Hp) as Hlt. apply Nat.ltb_lt in Hlt. rewrite Hlt, Ee. simpl.
+      unfold loop_done. rewrite Hiw, Es. reflexivity.
+Qed.
+
+Lemma pool_scan : forall c s l, Inv c s -> (forall w, In w l -> In w (pool c)) ->
+  moves c s \/ (forall w, In w l -> idleP s w \/ exited s w = true).
+Proof.
+  intros c s l I. induction l as [|x l IH]; intros Hin.
+  - right. intros w [].
+  - destruct (IH (fun w Hw => Hin w (or_intror Hw))) as [M|A]; [left; exact M|].
+    destruct (worker_move c s x I (Hin x (or_introl eq_refl))) as [Hi|[He|M]].
+    + right. intros w [E|Hw]; [subst; left; exact Hi|apply A; exact Hw].
+    + right. intros w [E|Hw]; [subst; right; exact He|apply A; exact Hw].
+    + left. exact M.
+Qed.
+
+Lemma forallb_false_exists : forall (f : nat -> bool) l, forallb f l = false -> exists x, In x l /\ f x = false.
+Proof.
+  intros f l. induction l as [|x l IH]; simpl; intros H; [discriminate|].
+  destruct (f x) eqn:E.
+  - destruct (IH H) as [y [Hy Hf]]. exists y. split; [right; exact Hy|exact Hf].
+  - exists x. split; [left; reflexivity|exact E].
+Qed.
+
+Theorem no_deadlock_inv : forall c s, valid_cfg c = true -> Inv c s -> finalb c s = false -> moves c s.
+Proof.
+  intros c s V I NF.
+  destruct (pool_scan c s (pool c) I (fun w H => H)) as [M|A]; [exact M|].
+  destruct (valid_pool_nonempty c V) as [w0 Hw0].
+  destruct (inv_fin c s I) as [Hnf|[Hf Hj]].
+  - (* no Finish sent yet: every worker is idle on the stack *)
+    assert (Idle : forall w, In w (pool c) -> idleP s w).
+    { intros w Hw. destruct (A w Hw) as [H|H]; [exact H|].
+      pose proof (exited_shape s w (inv_links c s I w Hw) H) as Hs.
+      destruct (finish_shape s w (inv_links c s I w Hw) Hs) as (_ & _ & Hf & _).
+      rewrite (Hnf w Hw) in Hf. discriminate. }
+    pose proof (root_running c s w0 I Hw0 (Hnf w0 Hw0)) as Hroot.
+    assert (Incl : incl (pool c) (wstack s)).
+    { intros w Hw. apply memb_In. apply (Idle w Hw). }
+    destruct (jobstack s) as [|j js] eqn:Hjs.
+    + (* all jobs dispatched and reported: check_workers sends Finish *)
+      assert (T : finish_targets c s = pool c).
+      { unfold finish_targets, finish_cond. rewrite Hjs.
+        pose proof (NoDup_incl_length (pool_NoDup c) Incl) as Hlen. unfold nprocs.
+        apply Nat.leb_le in Hlen. rewrite Hlen.
+        apply filter_all. intros w Hw. rewrite (Hnf w Hw). reflexivity. }
+      assert (NE : exists p ps, pool c = p :: ps).
+      { destruct (pool c) as [|p ps]; [destruct Hw0|exists p, ps; reflexivity]. }
+      destruct NE as (p & ps & Hp).
+      exists (ECheck [] (pool c)), (finish_all (pool c) s). repeat split.
+      unfold step. rewrite Hroot. rewrite Hp at 1. cbv beta iota.
+      rewrite check_loop_nil, T, list_eqb_refl. reflexivity.
+    + (* a job and an idle worker: order() dispatches *)
+      destruct (wstack s) as [|w ws] eqn:Hws; [destruct (Incl w0 Hw0)|].
+      exists (EOrder (order_pairs s)), (do_order s). repeat split.
+      assert (E : order_pairs s = (j, w) :: combine js ws) by (unfold order_pairs; rewrite Hjs, Hws; reflexivity).
+      unfold step. rewrite Hroot. rewrite E at 1. cbv beta iota. rewrite pairs_eqb_refl. reflexivity.
+  - (* Finish sent to all: every worker has left; only a master-only root can remain *)
+    assert (Gone : forall w, In w (pool c) -> exited s w = true).
+    { intros w Hw. destruct (A w Hw) as [(_ & H & _)|H]; [|exact H]. rewrite (Hf w Hw) in H. discriminate. }
+    unfold finalb in NF. apply forallb_false_exists in NF. destruct NF as [r [Hr He]].
+    apply in_ranks in Hr.
+    assert (Hnp : ~ In r (pool c)) by (intros Hp; rewrite (Gone r Hp) in He; discriminate).
+    destruct (not_pool c r Hr Hnp) as [E Hib]. subst r.
+    exists (EExit 0), (do_exit 0 s). repeat split. simpl.
+    apply Nat.ltb_lt in Hr. rewrite Hr, He. simpl.
+    unfold loop_done, is_worker. rewrite Hib, Hr. simpl.
+    assert (F : forallb (wfin s) (pool c) = true) by (apply forallb_forall; exact Hf).
+    rewrite F. reflexivity.
+Qed.
+
+(** no_deadlock: in every reachable state in which some rank is still inside the dispatch loop, some
+    non-stuttering event of the current round is enabled. *)
+Theorem no_deadlock : forall c s, valid_cfg c = true -> reachable c s -> finalb c s = false ->
+  exists e, stutter e = false /\ is_newround e = false /\ enabled c s e = true.
+Proof.
+  intros c s V R NF. destruct (no_deadlock_inv c s V (inv_reachable c s R) NF) as (e & s' & H1 & H2 & H3).
+  exists e. repeat split; try assumption. unfold enabled. rewrite H3. reflexivity.
 Qed.
